@@ -35,6 +35,8 @@ func checkC02(w *World, r *Report) {
 	ruleSmuxBuffers(w, r, "R02.7")
 	r.Rule("R02.6", "every serving goroutine works on the stream accepted for it (no shared re-assigned variable)", 1)
 
+	r.Rule("R02.10", "the handler of one logical connection never closes the server's shared multiplexer session", 1)
+	ruleServerSessionClosers(w, r, "R02.10")
 	r.Rule("R02.9", "all logical connections ride one physical session: the session is (re)opened only under the mutex and under a reuse test made while it is held (two sessions on one upstream object cross their streams)", 4)
 	ruleSharedSession(w, r, "R02.9", w.Method("internal/client/upstream", "Upstreams", "Connect"), w.Method("internal/client/upstream", "Upstreams", "open"))
 	r.Rule("R02.8", "per-connection goroutines keep their state in locals: no store into the object all of them share", 2)
@@ -327,6 +329,8 @@ func checkC15(w *World, r *Report) {
 		// the mutex of the table of all DNS peers (a mutex field of the listener object), or of a server object
 		return strings.HasSuffix(fieldOwner(m), ".ServerDnsListener") || strings.HasPrefix(fieldOwner(m), "server.")
 	}, "every other peer that needs this lock (new sessions, closes, the pruner) waits as long as this one peer chooses")
+	r.Rule("R15.6", "every Lock in the DNS endpoint is released on every path out of the function (an early return with the table lock held locks out every other peer for good)", 10)
+	ruleLockPairing(w, r, "R15.6", dnsPkgFuncs(w))
 	r.Rule("R15.5", "no answer is written to a peer, and nothing else waits for one, while a lock shared by all peers of a DNS endpoint is held", 1)
 	lockPeerWrites = true
 	ruleNoWaitUnderLock(w, r, "R15.5", func(m *types.Var) bool {
@@ -405,6 +409,8 @@ func checkC17(w *World, r *Report) {
 	c01WriteCountsRule(w, r, "R17.7")
 	r.Rule("R17.8", "a deadline armed on a connection is disarmed in both directions before the connection lives on as a session (a left-over write deadline loses the target's answer and the end-of-stream)", 1)
 	ruleDeadlinePairing(w, r, "R17.8")
+	r.Rule("R17.10", "a websocket read limit, if any, admits the largest message the tunnel's own Write sends (else a bulk transfer ends in what looks like a clean end-of-stream)", 1)
+	ruleWsReadLimit(w, r, "R17.10")
 	r.Rule("R17.9", "no connection is closed abortively: SO_LINGER is left at the system default everywhere", 1)
 	ruleNoAbortiveClose(w, r, "R17.9")
 	r.Rule("R17.6", "after the first copier reported, no close waits for the second report", 1)
